@@ -168,7 +168,7 @@ func handoffCase(c *kit.Case) {
 	workers := 1 + (c.Index/handoffEvery)%2
 	jobs := 15000
 	if c.Tier == "thorough" {
-		jobs = 150000
+		jobs = 60000
 	}
 	// goroutines of dissolvers of earlier cases that are still around are not this case's workers
 	foreign := map[string]bool{}
@@ -259,7 +259,11 @@ func queueWaiters() map[string]bool {
 const handoffEvery = 40
 
 func runCase(c *kit.Case) {
-	if c.Index%handoffEvery == handoffEvery-1 {
+	every := handoffEvery
+	if c.Tier == "thorough" {
+		every = 10*handoffEvery + 40 // 136 hand-off cases of 60 000 jobs: the real-time part stays within minutes
+	}
+	if c.Index%every == every-1 {
 		handoffCase(c)
 		return
 	}
@@ -556,7 +560,7 @@ func TestC40(t *testing.T) {
 	kit.Main(t, kit.Spec{
 		ID:     "C40",
 		Level:  "fault_enumeration",
-		Rule: "every 40th case is a real-time hand-off case: 15 000 (thorough 150 000) jobs submitted one at a time to an idle Dissolver with 1-2 workers, each right after the previous one succeeded plus a 0-60-iteration spin, every third failing once; a job that is late by 300 ms makes the case read a goroutine dump, and the violation is 'all worker goroutines parked in sync.Cond.Wait inside queue.Wait while the job accepted before the dump is still not executed after it' (a lost wake-up; timing decides nothing). All other cases: one synctest bubble with a Dissolver of 1..64 workers; 1-5 submit bursts (1-12 jobs, every 8th burst 30-150) from separate goroutines at virtual instants 0..60ms; each job scripted to fail its first f executions, f in {0,1,2,3,5,8}, each execution sleeping d in {0,1,1.5,3,10,50}ms of virtual time (the fault grid f x d x workers is drawn per job); Run at 0 or (20%) after the first submits; Close: 40% none before a horizon at which even one worker would have finished (then all accepted jobs must have succeeded), 50% at a uniformly random virtual instant of the expected makespan (half of them on a millisecond boundary so that it coincides with job ends/bursts), 10% at instant 0; 0-3 submits after Close returned. " +
+		Rule: "every 40th case is a real-time hand-off case: 15 000 jobs (thorough: every 440th case, 60 000 jobs) submitted one at a time to an idle Dissolver with 1-2 workers, each right after the previous one succeeded plus a 0-60-iteration spin, every third failing once; a job that is late by 300 ms makes the case read a goroutine dump, and the violation is 'all worker goroutines parked in sync.Cond.Wait inside queue.Wait while the job accepted before the dump is still not executed after it' (a lost wake-up; timing decides nothing). All other cases: one synctest bubble with a Dissolver of 1..64 workers; 1-5 submit bursts (1-12 jobs, every 8th burst 30-150) from separate goroutines at virtual instants 0..60ms; each job scripted to fail its first f executions, f in {0,1,2,3,5,8}, each execution sleeping d in {0,1,1.5,3,10,50}ms of virtual time (the fault grid f x d x workers is drawn per job); Run at 0 or (20%) after the first submits; Close: 40% none before a horizon at which even one worker would have finished (then all accepted jobs must have succeeded), 50% at a uniformly random virtual instant of the expected makespan (half of them on a millisecond boundary so that it coincides with job ends/bursts), 10% at instant 0; 0-3 submits after Close returned. " +
 			"Every Submit call/return, execution start/end, Close call/return and the quiescence point after Close (synctest.Wait) is appended to one log under a mutex. Oracle: no execution of a job starts after one of its executions returned success; no execution starts after Close returned and the bubble settled; Submit is not rejected before Close was called; without Close every accepted job reaches success (exactly f+1 executions). " +
 			"Non-trivial = a case with at least one failed execution or a Close that found unfinished jobs; signature = buckets of (workers, jobs, failures, max f, close mode, executions running at close, unfinished at close, dropped, executions ending after close). evaluations = job executions.",
 		Assumptions: []string{
